@@ -798,6 +798,10 @@ func main() {
 		os.Exit(2)
 	}
 	runtime.GOMAXPROCS(runtime.NumCPU())
+	if *prop == "e2e" {
+		mainE2E(*seed, *n, *out)
+		return
+	}
 	if *prop == "closerace" {
 		mainCloseRace(*seed, *n, *out)
 		return
